@@ -400,23 +400,30 @@ fn fixed_nested_cases(rep: &mut Report) {
     // (D) one step overwrites an entry of a nested map and then removes the nested map; undo re-creates the map and the OLD entry: it
     // has to be back here and on a replica that receives the whole state (a copy linked to an entry of the old, deleted map is filed
     // under that map by every other replica) - the same below an array element
-    for below_array in [false, true] {
+    for combo in 0..(2 * 3 * 7 * 2) as u32 {
+        let below_array = combo % 2 == 1; let pre = (combo / 2) % 3 + 1; let edits = (combo / 6) % 7 + 1; let overwrite_holder = (combo / 42) % 2 == 1;
         let (d, m, mut mgr) = mk();
         let inner = { let mut t = d.transact_mut_with("me");
             if below_array { let a = m.insert(&mut t, "k0", ArrayPrelim::default()); a.insert(&mut t, 0, 7); a.insert(&mut t, 1, MapPrelim::default()) } else { m.insert(&mut t, "k1", MapPrelim::default()) } };
-        { let mut t = d.transact_mut_with("me"); inner.insert(&mut t, "k2", 1); inner.insert(&mut t, "k3", 5); } mgr.reset();
+        { let mut t = d.transact_mut_with("me"); inner.insert(&mut t, "k2", 1); if pre >= 2 { inner.insert(&mut t, "k3", 5); } if pre >= 3 { inner.insert(&mut t, "k2", 9); } } mgr.reset();
         let before = show(&d);
-        { let mut t = d.transact_mut_with("me"); inner.insert(&mut t, "k2", 2); }
-        { let mut t = d.transact_mut_with("me"); if below_array { m.remove(&mut t, "k0"); } else { m.remove(&mut t, "k1"); } } mgr.reset();
+        if edits & 1 != 0 { let mut t = d.transact_mut_with("me"); inner.insert(&mut t, "k2", 2); }
+        if edits & 2 != 0 { let mut t = d.transact_mut_with("me"); inner.remove(&mut t, "k3"); }
+        if edits & 4 != 0 { let mut t = d.transact_mut_with("me"); inner.insert(&mut t, "k4", 3); }
+        { let mut t = d.transact_mut_with("me"); let key = if below_array { "k0" } else { "k1" }; if overwrite_holder { m.insert(&mut t, key, 64); } else { m.remove(&mut t, key); } } mgr.reset();
+        let removed = show(&d);
+        let on_replica = |d: &yrs::Doc| { let d2 = mk_doc(2, DocCfg::default());
+            { use yrs::ReadTxn; let u = d.transact().encode_state_as_update_v1(&yrs::StateVector::default()); if let Ok(u) = Update::decode_v1(&u) { let _ = d2.transact_mut().apply_update(u); } } show(&d2) };
         mgr.undo_blocking();
-        let after = show(&d);
-        let d2 = mk_doc(2, DocCfg::default());
-        { use yrs::ReadTxn; let u = d.transact().encode_state_as_update_v1(&yrs::StateVector::default()); if let Ok(u) = Update::decode_v1(&u) { let _ = d2.transact_mut().apply_update(u); } }
-        let remote = show(&d2);
+        let after = show(&d); let remote = on_replica(&d);
+        mgr.redo_blocking();
+        let again = show(&d); let remote2 = on_replica(&d);
         rep.count("c12_fixed_nested_inputs");
-        let input = format!("fixed: one step overwrites an entry of a nested map and removes the map{}, undo", if below_array { " (below an array that is removed)" } else { "" });
+        let input = format!("fixed family D: a nested map{} with {} writes; one step edits it (mask {}: overwrite k2 / remove k3 / add k4) and {} its holder; undo, redo", if below_array { " below an array" } else { "" }, pre, edits, if overwrite_holder { "overwrites" } else { "removes" });
         if after != before { rep.fail(json!({"property": "C12", "class": "undo-does-not-restore-the-content-before-the-step", "input": input, "before": before, "after": after})); }
         else if remote != after { rep.fail(json!({"property": "C12", "class": "replicas-diverge-after-undo-redo", "input": input, "a": after, "b": remote})); }
+        else if again != removed { rep.fail(json!({"property": "C12", "class": "redo-does-not-restore-the-content-after-the-step", "input": input, "before": removed, "after": again})); }
+        else if remote2 != again { rep.fail(json!({"property": "C12", "class": "replicas-diverge-after-undo-redo", "input": input, "a": again, "b": remote2})); }
     }
 }
 
